@@ -193,6 +193,8 @@ func (m *Machine) callVx(fn *ssa.Function, a []Value) Value {
 			}
 		}
 		return m.normScalar(r)
+	case "vxConcreteBool":
+		return m.DecideV(a[0])
 	case "vxConcreteStr":
 		return m.concretizeStr(a[0])
 	case "vxAssume":
@@ -510,7 +512,7 @@ func (m *Machine) callVx(fn *ssa.Function, a []Value) Value {
 	case "vxInvOK":
 		// the invocation ran to its end with exit status 0
 		inv := m.Env.Invs[m.toInt(a[0])]
-		if !inv.Ended {
+		if !inv.Ended || inv.Exit == nil || inv.MissedDeclared {
 			return false
 		}
 		return m.eqValue(inv.Exit, int64(0))
